@@ -18,6 +18,9 @@
 #include "ola/io/SelectServer.h"
 #include "ola/thread/ExecutorThread.h"
 #include "ola/thread/Future.h"
+#include "ola/thread/PeriodicThread.h"
+#include "ola/Clock.h"
+#include <errno.h>
 #include "ola/thread/Thread.h"
 #include "vh.h"
 
@@ -29,6 +32,7 @@ int __real_pthread_mutex_destroy(pthread_mutex_t *m);
 int __real_pthread_cond_init(pthread_cond_t *c, const pthread_condattr_t *a);
 int __real_pthread_cond_destroy(pthread_cond_t *c);
 int __real_pthread_cond_wait(pthread_cond_t *c, pthread_mutex_t *m);
+int __real_pthread_cond_timedwait(pthread_cond_t *c, pthread_mutex_t *m, const struct timespec *ts);
 int __real_pthread_cond_signal(pthread_cond_t *c);
 int __real_pthread_cond_broadcast(pthread_cond_t *c);
 int __real_pthread_create(pthread_t *t, const pthread_attr_t *a, void *(*fn)(void *), void *arg);
@@ -36,11 +40,13 @@ int __real_pthread_join(pthread_t t, void **ret);
 }
 
 namespace sch {
-enum Op { OP_NONE, OP_BEGIN, OP_LOCK, OP_UNLOCK, OP_WAIT, OP_RELOCK, OP_SIGNAL, OP_BCAST, OP_CREATE, OP_JOIN };
+enum Op { OP_NONE, OP_BEGIN, OP_LOCK, OP_UNLOCK, OP_WAIT, OP_RELOCK, OP_SIGNAL, OP_BCAST, OP_CREATE, OP_JOIN,
+          OP_YIELD, OP_TWAIT };
 enum St { ST_PARKED, ST_ASLEEP, ST_DONE };
 struct Th {
   int id; sem_t sem; Op op; const void *a; const void *b; St st;
   pthread_t real; void *(*fn)(void *); void *arg; int join_target;
+  bool timed; bool timedout;
 };
 static bool active = false;
 static std::vector<Th*> ths;
@@ -102,21 +108,34 @@ static void dispatch() {
       ev(vh::str(t->id) + "Z");
       continue;
     }
-    std::vector<Th*> en;
+    // really enabled threads first, then threads asleep in a timed wait (they can always time out)
+    std::vector<Th*> en1, en2;
     bool all_done = true;
     for (size_t i = 0; i < ths.size(); i++) {
-      if (can_run(ths[i])) en.push_back(ths[i]);
+      if (can_run(ths[i])) en1.push_back(ths[i]);
+      if (ths[i]->st == ST_ASLEEP && ths[i]->timed) en2.push_back(ths[i]);
       if (ths[i]->st != ST_DONE) all_done = false;
     }
+    std::vector<Th*> en(en1);
+    en.insert(en.end(), en2.begin(), en2.end());
     if (en.empty()) { outcome = all_done ? "done" : "deadlock"; finish(); }
     Th *t = en[c % en.size()];
     unsigned pick = c / en.size();
     if (c >= 500) {
       pick = 0;
-      t = en[(c - 500) % en.size()];
-      for (size_t i = 0; i < en.size(); i++) if (en[i]->id == last_run) t = en[i];
+      t = NULL;
+      for (size_t i = 0; i < en1.size(); i++) if (en1[i]->id == last_run) t = en1[i];
+      if (!t) t = en1.empty() ? en2[0] : en1[(c - 500) % en1.size()];
     }
     last_run = t->id;
+    if (t->st == ST_ASLEEP) {     // time-out of a timed wait
+      std::deque<int> &q = wq[t->a];
+      for (std::deque<int>::iterator it = q.begin(); it != q.end(); ++it)
+        if (*it == t->id) { q.erase(it); break; }
+      t->st = ST_PARKED; t->op = OP_RELOCK; t->a = t->b; t->timedout = true;
+      ev(vh::str(t->id) + "T");
+      continue;
+    }
     std::string id = vh::str(t->id);
     bool run_it = true;
     switch (t->op) {
@@ -137,9 +156,12 @@ static void dispatch() {
         if (owner.find(t->a) == owner.end() || owner[t->a] != t->id) { outcome = "badunlock"; finish(); }
         owner.erase(t->a);
         break;
-      case OP_WAIT: {
+      case OP_YIELD: ev(id + "Y"); break;
+      case OP_WAIT:
+      case OP_TWAIT: {
         std::string cn = nm(&cname, "c", t->a);
-        ev(id + "W." + cn + "." + nm(&mname, "m", t->b));
+        ev(id + (t->op == OP_TWAIT ? "TW." : "W.") + cn + "." + nm(&mname, "m", t->b));
+        t->timed = (t->op == OP_TWAIT); t->timedout = false;
         if (dead.count(t->a) || dead.count(t->b)) { outcome = "uaf"; finish(); }
         if (owner.find(t->b) == owner.end() || owner[t->b] != t->id) { outcome = "badunlock"; finish(); }
         owner.erase(t->b);
@@ -191,7 +213,7 @@ static void park(Op op, const void *a, const void *b) {
 static Th *new_thread() {
   Th *t = new Th();
   t->id = ths.size(); sem_init(&t->sem, 0, 0); t->op = OP_BEGIN; t->a = t->b = NULL; t->st = ST_PARKED;
-  t->join_target = -1; t->fn = NULL; t->arg = NULL;
+  t->join_target = -1; t->fn = NULL; t->arg = NULL; t->timed = false; t->timedout = false;
   ths.push_back(t);
   return t;
 }
@@ -209,6 +231,7 @@ static void *trampoline(void *p) {
 static void destroyed(const void *p, bool busy) {
   if (!active || !self) return;
   if (busy) { outcome = "destroybusy"; finish(); }
+  if (dead.count(p)) { outcome = "uaf"; finish(); }     // destroyed twice
   dead.insert(p);
 }
 }  // namespace sch
@@ -238,12 +261,19 @@ int __wrap_pthread_mutex_lock(pthread_mutex_t *m) {
 int __wrap_pthread_mutex_unlock(pthread_mutex_t *m) {
   if (!sch::active || !sch::self) return __real_pthread_mutex_unlock(m);
   sch::park(sch::OP_UNLOCK, m, NULL);
+  // a scheduling point right after the unlock: another thread may run before the caller continues
+  sch::park(sch::OP_YIELD, NULL, NULL);
   return 0;
 }
 int __wrap_pthread_cond_wait(pthread_cond_t *c, pthread_mutex_t *m) {
   if (!sch::active || !sch::self) return __real_pthread_cond_wait(c, m);
   sch::park(sch::OP_WAIT, c, m);   // returns after wake-up + re-acquisition
   return 0;
+}
+int __wrap_pthread_cond_timedwait(pthread_cond_t *c, pthread_mutex_t *m, const struct timespec *ts) {
+  if (!sch::active || !sch::self) return __real_pthread_cond_timedwait(c, m, ts);
+  sch::park(sch::OP_TWAIT, c, m);   // returns after wake-up or (schedule-driven) time-out + re-acquisition
+  return sch::self->timedout ? ETIMEDOUT : 0;
 }
 int __wrap_pthread_cond_signal(pthread_cond_t *c) {
   if (!sch::active || !sch::self) return __real_pthread_cond_signal(c);
@@ -354,6 +384,13 @@ static void scen_futcopy(int g) {
   for (int i = 0; i < 1 + g; i++) pthread_join(tids[i], NULL);
 }
 
+// ---- PeriodicThread: constructor starts the thread, Stop() terminates and joins it
+static bool per_cb() { out(2, 0); return true; }
+static void scen_periodic() {
+  ola::thread::PeriodicThread pt(ola::TimeInterval(3600, 0), ola::NewCallback(per_cb));
+  pt.Stop();
+}
+
 // ---- ExecutorThread with callbacks that call Execute again
 static int er_children[64];
 static void er_cb(ExecutorThread *ex, int producer, int seq, int resubmit) {
@@ -436,6 +473,7 @@ static void child(const std::vector<std::string> &a) {
   if (a[0] == "exec") scen_exec(ints(a[1]));
   else if (a[0] == "futraw") scen_futraw();
   else if (a[0] == "futcopy") scen_futcopy(atoi(a[1].c_str()));
+  else if (a[0] == "periodic") scen_periodic();
   else if (a[0] == "execre") scen_execre(ints(a[1]), ints(a[2]));
   else if (a[0] == "ss") scen_ss(ints(a[1]), ints(a[2]), atoi(a[3].c_str()));
   m->st = sch::ST_DONE;
@@ -448,7 +486,7 @@ static std::string handle(const std::string &p) {
   std::vector<std::string> a = vh::split(p);
   if (!(a[0] == "exec" && a.size() == 3) && !(a[0] == "futraw" && a.size() == 2) &&
       !(a[0] == "futcopy" && a.size() == 3) && !(a[0] == "ss" && a.size() == 5) &&
-      !(a[0] == "execre" && a.size() == 4))
+      !(a[0] == "execre" && a.size() == 4) && !(a[0] == "periodic" && a.size() == 2))
     return "bad-op";
   int fds[2];
   if (pipe(fds)) return "end=pipe-failed";
